@@ -315,8 +315,7 @@ cfgLoop:
 			cfg.StartTimeS = sc.Atoi(key, val) + ms2S(nowMS)
 			cfg.AddLocationFlag = true
 		case "stoprel":
-			cfg.StopTimeS = sc.AtoiPtr(key, val)
-			*cfg.StopTimeS += ms2S(nowMS)
+			cfg.StopTimeS = Ptr(sc.Atoi(key, val) + ms2S(nowMS))
 			cfg.AddLocationFlag = true
 		case "dur": // Adds a presentation duration for multiple periods
 			cfg.PeriodDurations = append(cfg.PeriodDurations, sc.Atoi(key, val))
